@@ -28,6 +28,7 @@ type g2cfg struct {
 	status bool     // first result is an HTTP status
 	track  []string // assignment targets recorded as actions "<target>=<rhs>"
 	local  []string // package-local callees kept as named actions (everything else local is rendered in place)
+	pure   []string // package-local callees that are neither rendered in place nor recorded (pure functions of their arguments)
 }
 
 var guards2Funcs = []g2cfg{
@@ -44,18 +45,16 @@ var guards2Funcs = []g2cfg{
 	{fn: "parseClosePayload", local: []string{"validWireCloseCode"}},
 	{fn: "CloseError.bytesErr", local: []string{"validWireCloseCode"}, acts: []string{"binary.BigEndian.PutUint16", "copy"}, full: []string{"binary.BigEndian.PutUint16", "copy"}},
 	{fn: "CloseError.bytes", local: []string{"bytesErr"}, track: []string{"ce"}},
-	{fn: "readFrameHeader", acts: []string{"r.ReadByte", "io.ReadFull"}, full: []string{"io.ReadFull"},
-		track: []string{"h.fin", "h.rsv1", "h.rsv2", "h.rsv3", "h.opcode", "h.masked", "h.payloadLength", "h.maskKey"}},
+	{fn: "readFrameHeader", acts: []string{"r.ReadByte", "io.ReadFull"}, full: []string{"io.ReadFull"}, track: []string{"h.payloadLength"}},
 	{fn: "writeFrameHeader", acts: []string{"w.WriteByte", "w.Write", "binary.BigEndian.PutUint64", "binary.BigEndian.PutUint16", "binary.LittleEndian.PutUint32"},
-		full: []string{"w.WriteByte", "w.Write", "binary.BigEndian.PutUint64", "binary.BigEndian.PutUint16", "binary.LittleEndian.PutUint32"},
-		track: []string{"b", "lengthByte"}},
+		full: []string{"w.Write", "binary.BigEndian.PutUint64", "binary.BigEndian.PutUint16", "binary.LittleEndian.PutUint32"}, track: []string{"lengthByte"}},
 	{fn: "limitReader.Read", track: []string{"n", "p"}, local: []string{"writeError"}},
 	{fn: "msgReader.Read", acts: []string{"io.Copy"}, local: []string{"readMu.lock", "readUnlock", "limitReader.Read", "flateContextTakeover", "dict.write", "putFlateReader"}},
 	{fn: "msgReader.reset", local: []string{"resetFlate", "limitReader.reset", "setFrame", "flateContextTakeover", "dict.init", "flate"}, track: []string{"ctx", "flate", "flateTail"}},
 	{fn: "msgWriter.reset", local: []string{"mu.lock"}, track: []string{"ctx", "opcode", "flate", "closed"}},
 	{fn: "Conn.write", acts: []string{"writer(ctx,typ)#0.Write", "writer(ctx,typ)#0.Close"}, local: []string{"msgWriter.reset", "msgWriter.mu.unlock", "msgWriter.Write", "msgWriter.Close", "writeFrame", "flate", "writer", "reset", "mu.unlock", "Write", "Close"}},
 	{fn: "Conn.ping", acts: []string{"delete"}, local: []string{"writeControl", "activePingsMu.Lock", "activePingsMu.Unlock"}, track: []string{"activePings[p]"}},
-	{fn: "netConn.read", acts: []string{"atomic.LoadInt64"}, local: []string{"Reader", "Close", "reader.Read", "c.Reader", "c.Close"}, track: []string{"readEOFed", "reader"}},
+	{fn: "netConn.read", pure: []string{"CloseStatus"}, acts: []string{"atomic.LoadInt64"}, local: []string{"Reader", "Close", "reader.Read", "c.Reader", "c.Close"}, track: []string{"readEOFed", "reader"}},
 	{fn: "netConn.Read", local: []string{"readMu.forceLock", "readMu.unlock", "read"}},
 	{fn: "netConn.Write", acts: []string{"atomic.LoadInt64"}, local: []string{"writeMu.forceLock", "writeMu.unlock", "Write", "c.Write"}},
 	{fn: "read", dir: "wsjson", acts: []string{"c.Reader", "bpool.Get", "bpool.Put", "bpool.Get().ReadFrom", "json.Unmarshal", "c.Close"}},
@@ -339,13 +338,17 @@ func (t *guardTr) assignV2(s *ast.AssignStmt) []string {
 				out = append(out, fmt.Sprintf(".assign %s (%s)", leanStr(l.Name), t.cond(rhs)))
 				continue
 			}
+			if idx == "" && isErrCtor(rhs) {
+				out = append(out, fmt.Sprintf(".assign %s (.tt)", leanStr(l.Name+"!=nil")))
+				continue
+			}
 			if t.bools[l.Name] {
 				// a boolean taken from a call / type assertion / map lookup: an atom named by where it comes from
 				src := t.normExpr(rhs)
 				if c, ok := rhs.(*ast.CallExpr); ok {
 					src = t.calleeName(c.Fun)
 				}
-				out = append(out, fmt.Sprintf(".assign %s (.v %s)", leanStr(l.Name), leanStr(src+":"+l.Name)))
+				out = append(out, fmt.Sprintf(".assign %s (.v %s)", leanStr(l.Name), leanStr(src+idx)))
 				continue
 			}
 			if t.nasg[l.Name] == 1 && (s.Tok == token.DEFINE || s.Tok == token.ASSIGN) {
